@@ -28,6 +28,7 @@ def opIriEquals (j : Json) : R Json := do
 def opIrisContains (j : Json) : R Json := do
   let l ← (← arrF j "l").mapM (fun x => do unhex (← str x))
   let r ← unhex (← strF j "r")
+  if APModel.IRI.isNilIRI r then return Json.bool false
   let rs := l.map (fun i => iriEqualsJ r i false)
   if rs.any (· == Json.bool true) then return Json.bool true
   if rs.any (· == outsideJ) then return outsideJ
